@@ -403,6 +403,17 @@ def main_check(prop, tier, seed, repo, replay=None, jobs=None):
             inconclusive.append("shard %d died (rc=%s): %s" % (k, p.returncode, tail))
             continue
         results.append(json.load(open(outp)))
+    ride = None
+    if tier == "thorough" and not replay and plan.get("ridealong", True) and not os.environ.get("VERIF_NO_RIDEALONG"):
+        ride = run_ridealong(prop, seed, repo)
+        if ride.get("result"):
+            rr = ride["result"]
+            rr["monitors"] = {"ridealong:" + k: v for k, v in rr["monitors"].items() if not k.startswith("completes:")}
+            rr["evaluations"], rr["digests"], rr["classes"], rr["samples"], rr["anchors"] = 0, [], {}, [], {}
+            rr["extra"] = {"ridealong_pytest": ride.get("pytest_tail")}
+            results.append(rr)
+        else:
+            inconclusive.append("ride-along workload did not produce a result: %s" % ride.get("error"))
     tot = _merge(results)
     if not inconclusive and not os.environ.get("VERIF_KEEP_SHARDS"):
         shutil.rmtree(shard_dir, ignore_errors=True)
@@ -443,6 +454,30 @@ def main_check(prop, tier, seed, repo, replay=None, jobs=None):
         return 2
     print("RESULT held-on-observed " + summary)
     return 0
+
+
+def run_ridealong(prop, seed, repo):
+    """cryoCAT's own tests, on a scratch copy outside /repo and /verif, with this property's call monitors attached."""
+    td = tempfile.mkdtemp(prefix="vride_%s_" % prop)
+    try:
+        subprocess.check_call(["rsync", "-a", "--exclude", ".git", "--exclude", "__pycache__", repo.rstrip("/") + "/", td + "/"])
+        if not os.path.isdir(os.path.join(td, "tests")):      # a scratch tree holding only cryocat/: borrow the tests of /repo
+            subprocess.check_call(["rsync", "-a", "--exclude", ".git", "--exclude", "__pycache__", "--exclude", "cryocat", "/repo/", td + "/"])
+        outd = os.path.join(td, "_vride")
+        os.makedirs(outd)
+        env = dict(os.environ, PYTHONPATH=VERIF, VMON_RIDE_PROPS=prop, VMON_RIDE_OUT=outd, VERIF_SEED=str(seed), PYTHONHASHSEED="0", MPLBACKEND="Agg")
+        p = subprocess.run([sys.executable, "-m", "pytest", "-q", "-p", "no:cacheprovider", "-p", "vmon.ridealong", "--timeout=900",
+                            "--continue-on-collection-errors", "-x" if False else "-q"], cwd=td, env=env, stdout=subprocess.PIPE,
+                           stderr=subprocess.STDOUT, text=True, timeout=1800)
+        tail = p.stdout.strip().splitlines()[-1:] if p.stdout.strip() else []
+        rp = os.path.join(outd, "ride_%s.json" % prop)
+        if not os.path.exists(rp):
+            return {"error": "no ride result; pytest said: %s" % (p.stdout[-400:],)}
+        return {"result": json.load(open(rp)), "pytest_tail": tail}
+    except Exception as e:
+        return {"error": "%s: %s" % (type(e).__name__, str(e)[:300])}
+    finally:
+        shutil.rmtree(td, ignore_errors=True)
 
 
 def write_evidence(prop, tier, seed, mod, plan, tot, wall, inconclusive, scratch_repo=False):
